@@ -19,6 +19,7 @@ BOUNDS = {"quick": "all pairs of arrays L<=3 over 3 values x all pairs of {bool,
 BINARY = ["add", "subtract", "multiply", "maximum", "minimum", "equal", "less", "bitwise_and", "bitwise_xor", "logical_and", "logical_or", "floor_divide", "true_divide"]
 UNARY = ["negative", "absolute", "invert", "logical_not", "square", "sign"]
 VALS = {"bool": [False, True], "int8": [-3, 0, 100], "int64": [0, 1, -2], "uint8": [0, 200, 3], "float64": [0.5, -1.0, 2.0]}
+CLOSE = [1.0, 1.0000001, 1e-9]        # different but within np.isclose tolerance: results must only be joined on ==
 SCALARS = [["py", 2], ["py", 2.5], ["py", True], ["int8", 3], ["float32", 1.5]]
 FLOAT_EXCLUDED = {"floor_divide"}
 
@@ -36,6 +37,8 @@ def shards(tier):
     for d1 in VALS:
         out.append({"single": d1, "lmax": 4 if tier == "quick" else 6})
     out.append({"medium": 1})
+    out.append({"pair": ["f64close", "f64close"], "lmax": 3, "few": 1})
+    out.append({"pair": ["f64close", "int64"], "lmax": 2, "few": 1})
     return out
 
 
@@ -60,9 +63,10 @@ def cases(shard, tier):
     if "pair" in shard:
         d1, d2 = shard["pair"]
         ufs = BINARY if not shard.get("few") else ["add", "maximum", "equal", "subtract", "logical_and"]
+        nv = lambda d: 3 if d == "f64close" else len(VALS[d])
         for L in range(shard.get("lmin", 1), shard["lmax"] + 1):
-            for t1 in itertools.product(range(len(VALS[d1])), repeat=L):
-                for t2 in itertools.product(range(len(VALS[d2])), repeat=L):
+            for t1 in itertools.product(range(nv(d1)), repeat=L):
+                for t2 in itertools.product(range(nv(d2)), repeat=L):
                     for u in ufs:
                         yield ["bin", d1, list(t1), d2, list(t2), u]
         return
@@ -79,6 +83,9 @@ def cases(shard, tier):
                         yield ["sc", d1, list(t1), s, u, side]
             for name in ("sum", "any", "all", "max", "mean"):
                 yield ["red", d1, list(t1), name]
+            if d1 == "int64" and L >= 2:
+                yield ["red", "int64big", list(t1), "mean"]
+                yield ["red", "int64big", list(t1), "max"]
             for bins in (1, 2, 3, 4):
                 yield ["hist", d1, list(t1), bins, None]
             yield ["hist", d1, list(t1), 3, [-1.0, 3.0]]
@@ -89,6 +96,10 @@ def cases(shard, tier):
 
 
 def _arr(dt, t):
+    if dt == "f64close":
+        return np.array([CLOSE[i % 3] for i in t], dtype=np.float64)
+    if dt == "int64big":       # each value fits, their int64 sum does not
+        return np.array([[2 ** 62, 2 ** 62 - 1, -(2 ** 62)][i % 3] for i in t], dtype=np.int64)
     return np.array([VALS[dt][i % len(VALS[dt])] for i in t], dtype=dt)
 
 
@@ -129,7 +140,7 @@ def check(case, acc):
         ref = lambda: f(a, b)
         run = lambda: f(ra, rb)
         joined = True
-        excl = u in FLOAT_EXCLUDED and "float64" in (d1, d2)
+        excl = u in FLOAT_EXCLUDED and ("float64" in (d1, d2) or "f64close" in (d1, d2))
     elif kind == "un":
         f = getattr(np, case[3])
         ref = lambda: f(a)
@@ -159,8 +170,10 @@ def check(case, acc):
         t2 = case[3]
         b = _arr(d1, t2)
         acc.feature("concatenate")
+        rb2, ra2 = RunLengthArray.from_array(b.copy()), RunLengthArray.from_array(a.copy())
+        derived = ra2 + 0          # shares whatever ra2 shares with its ufunc results
         ref = lambda: np.concatenate([a, b, a])
-        run = lambda: np.concatenate([ra, RunLengthArray.from_array(b.copy()), RunLengthArray.from_array(a.copy())])
+        run = lambda: np.concatenate([ra, rb2, ra2])
         excl = False
         acc.nontrivial()
     if excl:
@@ -191,6 +204,11 @@ def check(case, acc):
         acc.fail("operand-modified", a.tolist(), decode(ra).tolist())
     if kind == "bin" and not np.array_equal(decode(rb), b):
         acc.fail("operand-modified", b.tolist(), decode(rb).tolist())
+    if kind == "cat":
+        for name, obj, dense in (("second", rb2, b), ("third", ra2, a), ("array derived from the third", derived, a)):
+            o2 = attempt(lambda: decode(obj).tolist())
+            if o2 != dense.tolist():
+                acc.fail("operand-modified", (name, dense.tolist()), o2)
 
 
 def _check_red(case, acc, a, ra):
@@ -205,7 +223,7 @@ def _check_red(case, acc, a, ra):
     acc.trans()
     acc.outcome((name, o))
     ev = pyval(e)
-    ok = (o == ev) or (name == "mean" and not isinstance(o, (str, tuple)) and abs(o - ev) <= 4e-16 * max(abs(o), abs(ev)))
+    ok = (o == ev) or (name == "mean" and not isinstance(o, (str, tuple)) and abs(o - ev) <= 1e-15 * max(abs(o), abs(ev), 1e-300))
     if not ok:
         acc.fail("reduction-wrong", (name, ev), o)
 
